@@ -26,14 +26,22 @@ static Shape gen_shape(vf::Rng& g, int st) {
   // is not exactly zero (findings/C25-orthogonality-contract.md): orientations are drawn until the
   // rounded pair passes that test; a rotation about z (exact by construction) is the fallback.
   bool found = false;
-  for (int t = 0; t < 400 && !found; ++t) {
+  auto exact0 = [](const tfm::tvector<3u, double>& x, const tfm::tvector<3u, double>& y) {
+    volatile double p0 = x[0] * y[0], p1 = x[1] * y[1], p2 = x[2] * y[2];
+    volatile double s1 = p0 + p1, s2 = p1 + p2, s3 = p0 + p2;
+    return (s1 + p2 == 0.0) && (p0 + s2 == 0.0) && (s3 + p1 == 0.0) && ((x | y) == 0.0) &&
+           tfm::VectorVectorDotProduct::exe<double, tfm::tvector<3u, double>, tfm::tvector<3u, double>>(x, y) == 0.0;
+  };
+  if (g.coin()) for (int t = 0; t < 400 && !found; ++t) {
     s.Q = random_rotation(g, 3);
     for (int i = 0; i < 3; ++i) { s.na[i] = double(s.Q[i][0]); s.nb[i] = double(s.Q[i][1]); }
-    found = tfm::VectorVectorDotProduct::exe<double, tfm::tvector<3u, double>, tfm::tvector<3u, double>>(s.na, s.nb) == 0.0;
+    found = exact0(s.na, s.nb);
   }
-  if (!found) {
-    const double th = g.uni(-3.2, 3.2), c = std::cos(th), sn = std::sin(th);
-    s.na = {c, sn, 0.}; s.nb = {-sn, c, 0.};
+  if (!found) {  // n_a random, n_b = (-n_a[1], n_a[0], 0): the two products cancel exactly (n_b is normalised by the library)
+    s.Q = random_rotation(g, 3);
+    for (int i = 0; i < 3; ++i) s.na[i] = double(s.Q[i][0]);
+    s.nb = {-s.na[1], s.na[0], 0.};
+    if (!exact0(s.na, s.nb) || (s.nb[0] == 0 && s.nb[1] == 0)) { s.na = {1., 0., 0.}; s.nb = {0., 1., 0.}; }
   }
   // the reference frame is rebuilt from the rounded directions (Gram-Schmidt in long double)
   V3 e0 = {s.na[0], s.na[1], s.na[2]}, e1 = {s.nb[0], s.nb[1], s.nb[2]};
